@@ -295,7 +295,13 @@ fn sym_tensor_from_input(id: NodeId, node: &Node, values: &HashMap<NodeId, SymTe
 }
 
 /// The driver's loop with the expressions kept (non-strict mode).
-pub fn replica_infer(graph: &Graph, order: &[NodeId], max_complexity: u32) -> HashMap<NodeId, SymTensor> {
+///
+/// `float_types`: the driver (since /repo f436bb9) keeps only the shape of an
+/// output whose inferred type is float. The types are taken from the real
+/// driver's own result (`InferResult::types` is the map it consults), so the
+/// replica applies exactly the same rule to exactly the same values. `None`
+/// mirrors a driver without that rule.
+pub fn replica_infer(graph: &Graph, order: &[NodeId], max_complexity: u32, float_types: Option<&HashMap<NodeId, ValueType>>) -> HashMap<NodeId, SymTensor> {
     let mut sym_gen = SymbolGen::new();
     let mut values: HashMap<NodeId, SymTensor> = HashMap::new();
     for op_id in order {
@@ -307,8 +313,14 @@ pub fn replica_infer(graph: &Graph, order: &[NodeId], max_complexity: u32) -> Ha
             .map(|i| i.and_then(|id| graph.get_node(id).map(|n| sym_tensor_from_input(id, n, &values))))
             .collect();
         if let Ok(outs) = infer.infer_shapes(InferShapesContext::new(&input_shapes), &mut sym_gen) {
-            for (oid, mut t) in op.output_ids().iter().zip(outs) {
+            for (oid, t) in op.output_ids().iter().zip(outs) {
                 let Some(oid) = oid else { continue };
+                let is_float = matches!(float_types.and_then(|m| m.get(oid)), Some(ValueType::Tensor(DataType::Float)));
+                let float_dims: Option<Vec<SymExpr>> = if is_float && t.values().is_some() { t.shape().map(|d| d.collect()) } else { None };
+                let mut t = match float_dims {
+                    Some(dims) => SymTensor::from_shape(dims),
+                    None => t,
+                };
                 t.replace_complex_expressions(max_complexity, &mut sym_gen);
                 values.insert(*oid, t.simplify());
             }
@@ -979,7 +991,17 @@ pub fn analyse(model: &ModelDef, insts: &[Inst], opts: &Options) -> Report {
             None
         }
     };
-    let replica = match vcore::catch(|| replica_infer(graph, &order, InferShapeOptions::default().max_complexity)) {
+    // Does the driver under test keep symbolic values for float outputs? It
+    // does iff it reports a constant for some float-typed value (drivers with
+    // the float rule never do). The replica follows the driver it is paired with.
+    let driver_keeps_float_values = real_on.shapes.iter().any(|(id, sh)| {
+        matches!(sh, Shape::Constant { .. }) && matches!(real_on.types.get(id), Some(ValueType::Tensor(DataType::Float)))
+    });
+    if driver_keeps_float_values {
+        rep.label("driver-keeps-float-values");
+    }
+    let float_types = if driver_keeps_float_values { None } else { Some(&real_on.types) };
+    let replica = match vcore::catch(|| replica_infer(graph, &order, InferShapeOptions::default().max_complexity, float_types)) {
         Ok(r) => r,
         Err(_) => HashMap::new(),
     };
